@@ -89,10 +89,42 @@ def close(a, b, tol):
 
 
 class Result:
-    def __init__(self, ok, detail, model_line=None, impl=None, shape=None, kind='c', nontrivial=True, tag=None):
+    def __init__(self, ok, detail, model_line=None, impl=None, shape=None, kind='c', nontrivial=True, tag=None, extra=()):
         self.ok, self.detail = ok, detail
+        self.extra = list(extra)      # non-blocking model-fidelity comparisons: (line, impl, shape, kind, label)
         self.model_line, self.impl, self.shape, self.kind = model_line, impl, shape, kind
         self.nontrivial, self.tag = nontrivial, tag
+
+
+class Spy:
+    """records the matrix-DFT calls made by a forward routine, so that the model's adjoint can be built from the
+    forward's OWN basis matrices (whatever Q / shift / basis formula the forward uses)"""
+
+    def __init__(self, ft):
+        self.ex = ft.mdft
+        self.calls = []
+
+    def __enter__(self):
+        ex, cls = self.ex, type(self.ex)
+
+        def mk(name, fwd):
+            f = getattr(cls, name)
+
+            def w(ary, Q, samples_out, shift=(0, 0)):
+                self.calls.append((fwd, tuple(ary.shape), Q, samples_out, shift))
+                return f(ex, ary, Q, samples_out, shift)
+            return w
+        ex.dft2, ex.idft2 = mk('dft2', True), mk('idft2', False)
+        return self
+
+    def __exit__(self, *a):
+        for nm in ('dft2', 'idft2'):
+            self.ex.__dict__.pop(nm, None)
+
+    def bases(self, i):
+        fwd, shp, Q, so, shift = self.calls[i]
+        key = self.ex._key(samples_in=shp, Q=Q, samples_out=so, shift=shift, fwd=fwd)
+        return np.array(self.ex.Eout[key]), np.array(self.ex.Ein[key])
 
 
 def _impl():
@@ -112,15 +144,19 @@ def run_mdft(p):
     Q = tuple(p['Q']) if isinstance(p['Q'], (list, tuple)) else p['Q']
     shift = tuple(p['shift'])
     x, y = _cplx(r, shp), _cplx(r, out)
-    if p['op'] == 'dft2':
-        Ax, By, sg = ft.mdft.dft2(x, Q, out, shift), ft.mdft.dft2_backprop(y, Q, shp, shift), 1
-    else:
-        Ax, By, sg = ft.mdft.idft2(x, Q, out, shift), ft.mdft.idft2_backprop(y, Q, shp, shift), -1
+    with Spy(ft) as spy:
+        if p['op'] == 'dft2':
+            Ax, sg = ft.mdft.dft2(x, Q, out, shift), 1
+        else:
+            Ax, sg = ft.mdft.idft2(x, Q, out, shift), -1
+    By = ft.mdft.dft2_backprop(y, Q, shp, shift) if sg == 1 else ft.mdft.idft2_backprop(y, Q, shp, shift)
     gap, lhs, rhs = adj_gap(x, y, Ax, By)
     Qy, Qx = Q if isinstance(Q, tuple) else (Q, Q)
-    line = f'mdftbp {sg} {shp[0]} {shp[1]} {out[0]} {out[1]} ' + rw([Qy, Qx, shift[0], shift[1]]) + ' ' + cw(y)
+    Eo, Ei = spy.bases(0)
+    line = f'tripbp {out[0]} {shp[0]} {shp[1]} {out[1]} ' + cw(Eo) + ' ' + cw(Ei) + ' ' + cw(y)
+    fid = f'mdftbp {sg} {shp[0]} {shp[1]} {out[0]} {out[1]} ' + rw([Qy, Qx, shift[0], shift[1]]) + ' ' + cw(y)
     return Result(gap <= TOL_ADJ and By.shape == shp, f'<y,Ax>={lhs:.12g} <By,x>={rhs:.12g} rel gap {gap:.3e}',
-                  line, By, shp, 'c', nontrivial=max(shp + out) > 1,
+                  line, By, shp, 'c', nontrivial=max(shp + out) > 1, extra=[(fid, By, shp, 'c', 'basis-formula model of the backprop')],
                   tag=f'{"sq" if shp[0] == shp[1] and out[0] == out[1] else "nonsq"}/{"Qax" if isinstance(Q, tuple) and Q[0] != Q[1] else "Q"}/{"shift" if any(shift) else "noshift"}')
 
 
@@ -132,28 +168,59 @@ def run_fixed(p):
     idx, pd, wl, odx = p['input_dx'], p['prop_dist'], p['wavelength'], p['output_dx']
     x, y = _cplx(r, shp), _cplx(r, out)
     method = p.get('method', 'mdft')
+    ft = _impl()[1]
+    with Spy(ft) as spy:
+        if p['op'] == 'focus':
+            if p.get('via') == 'wavefront':
+                Ax = P.Wavefront(x, wl, idx, 'pupil').focus_fixed_sampling(pd, odx, out, shift, method).data
+            else:
+                Ax = P.focus_fixed_sampling(x, idx, pd, wl, odx, out, shift, method)
+            sg = 1
+        else:
+            Ax = P.unfocus_fixed_sampling(x, idx, pd, wl, odx, out, shift, method)
+            sg = -1
     if p['op'] == 'focus':
         if p.get('via') == 'wavefront':
-            Ax = P.Wavefront(x, wl, idx, 'pupil').focus_fixed_sampling(pd, odx, out, shift, method).data
             By = P.Wavefront(y, wl, odx, 'psf').focus_fixed_sampling_backprop(pd, idx, shp, shift).data
         else:
-            Ax = P.focus_fixed_sampling(x, idx, pd, wl, odx, out, shift, method)
             By = P.focus_fixed_sampling_backprop(y, idx, pd, wl, odx, shp, shift)
-        sg = 1
     else:
-        Ax = P.unfocus_fixed_sampling(x, idx, pd, wl, odx, out, shift, method)
         By = P.unfocus_fixed_sampling_backprop(y, idx, pd, wl, odx, shp, shift)
-        sg = -1
     gap, lhs, rhs = adj_gap(x, y, Ax, By)
-    line = f'fixedbp {sg} {shp[0]} {shp[1]} {out[0]} {out[1]} ' + rw([idx, pd, wl, odx, shift[0], shift[1]]) + ' ' + cw(y)
+    line = None
+    if len(spy.calls) == 1:          # matrix-DFT route: the adjoint of the forward's own triple product
+        try:
+            Eo, Ei = spy.bases(0)
+            line = f'tripbp {out[0]} {shp[0]} {shp[1]} {out[1]} ' + cw(Eo) + ' ' + cw(Ei) + ' ' + cw(y)
+        except KeyError:
+            line = None
+    fid = f'fixedbp {sg} {shp[0]} {shp[1]} {out[0]} {out[1]} ' + rw([idx, pd, wl, odx, shift[0], shift[1]]) + ' ' + cw(y)
+    fline = f'fixedfwd {sg} {shp[0]} {shp[1]} {out[0]} {out[1]} ' + rw([idx, pd, wl, odx, shift[0], shift[1]]) + ' ' + cw(x)
     return Result(gap <= TOL_ADJ and By.shape == shp, f'<y,Ax>={lhs:.12g} <By,x>={rhs:.12g} rel gap {gap:.3e}',
                   line, By, shp, 'c', nontrivial=max(shp + out) > 1,
+                  extra=[(fline, Ax, out, 'c', 'physical-parameter model of the forward'),
+                         (fid, By, shp, 'c', 'physical-parameter model of the backprop')],
                   tag=f'{p["op"]}/{"sq" if shp[0] == shp[1] else "nonsq"}-{"sq" if out[0] == out[1] else "nonsq"}/{"shift" if any(shift) else "noshift"}/{method}')
 
 
 def _mask(r, shape, cm):
     m = r.uniform(0.2, 1.0, size=shape)
     return m * np.exp(1j * r.uniform(-2, 2, size=shape)) if cm else m
+
+
+def _fpm_line(op, spy, ps, ms, mask, y, lyot=None):
+    """request for the adjoint of (idft2 . mask . dft2) built from the two matrix DFTs the forward performed"""
+    if len(spy.calls) != 2 or not spy.calls[0][0] or spy.calls[1][0]:
+        return None
+    try:
+        Eo1, Ei1 = spy.bases(0)
+        Eo2, Ei2 = spy.bases(1)
+    except KeyError:
+        return None
+    if Eo1.shape != (ms[0], ps[0]) or Ei1.shape != (ps[1], ms[1]) or Eo2.shape != (ps[0], ms[0]) or Ei2.shape != (ms[1], ps[1]):
+        return None
+    parts = [cw(Eo1), cw(Ei1), cw(mask), cw(Eo2), cw(Ei2)] + ([cw(lyot)] if lyot is not None else []) + [cw(y)]
+    return f'{op} {ps[0]} {ps[1]} {ms[0]} {ms[1]} ' + ' '.join(parts)
 
 
 def run_fpm(p):
@@ -165,11 +232,15 @@ def run_fpm(p):
     x, y = _cplx(r, ps), _cplx(r, ps)
     m = _mask(r, ms, p['cmask'])
     method = p.get('method', 'mdft')
+    ft = _impl()[1]
+    with Spy(ft) as spy:
+        if p.get('via') == 'wavefront':
+            Ax = P.Wavefront(x, wl, dx).to_fpm_and_back(efl, m, fdx, method=method, shift=shift).data
+        else:
+            Ax = P.to_fpm_and_back(x, dx, efl, wl, m, fdx, shift=shift, method=method)
     if p.get('via') == 'wavefront':
-        Ax = P.Wavefront(x, wl, dx).to_fpm_and_back(efl, m, fdx, method=method, shift=shift).data
         By = P.Wavefront(y, wl, dx).to_fpm_and_back_backprop(efl, m, fdx, method=method, shift=shift).data
     else:
-        Ax = P.to_fpm_and_back(x, dx, efl, wl, m, fdx, shift=shift, method=method)
         By = P.to_fpm_and_back_backprop(y, dx, wl, efl, m, fdx, method=method, shift=shift)
     gap, lhs, rhs = adj_gap(x, y, Ax, By)
     extra = ''
@@ -179,9 +250,13 @@ def run_fpm(p):
         extra = f'; Wavefront mask gives the same result: {same}'
         if not same:
             gap = max(gap, 1.0)
-    line = f'fpmbp {ps[0]} {ps[1]} {ms[0]} {ms[1]} ' + rw([dx, efl, wl, fdx, shift[0], shift[1]]) + ' ' + cw(m) + ' ' + cw(y)
+    line = _fpm_line('fpmbpm', spy, ps, ms, m, y)
+    fid = f'fpmbp {ps[0]} {ps[1]} {ms[0]} {ms[1]} ' + rw([dx, efl, wl, fdx, shift[0], shift[1]]) + ' ' + cw(m) + ' ' + cw(y)
+    fline = f'fpmfwd {ps[0]} {ps[1]} {ms[0]} {ms[1]} ' + rw([dx, efl, wl, fdx, shift[0], shift[1]]) + ' ' + cw(m) + ' ' + cw(x)
     return Result(gap <= TOL_ADJ and By.shape == ps, f'<y,Ax>={lhs:.12g} <By,x>={rhs:.12g} rel gap {gap:.3e}' + extra,
                   line, By, ps, 'c', nontrivial=max(ps + ms) > 1,
+                  extra=[(fline, Ax, ps, 'c', 'physical-parameter model of the forward'),
+                         (fid, By, ps, 'c', 'physical-parameter model of the backprop')],
                   tag=f'{"cmask" if p["cmask"] else "rmask"}/{"same" if ps == ms else "othershape"}/{"shift" if any(shift) else "noshift"}')
 
 
@@ -193,7 +268,9 @@ def run_babinet(p):
     x, y = _cplx(r, ps), _cplx(r, ps)
     m = _mask(r, ms, p['cmask'])
     lyot = None if p['lyot'] == 'none' else _mask(r, ps, p['lyot'] == 'complex')
-    Ax = P.Wavefront(x, wl, dx).babinet(efl, lyot, m, fdx).data
+    ft = _impl()[1]
+    with Spy(ft) as spy:
+        Ax = P.Wavefront(x, wl, dx).babinet(efl, lyot, m, fdx).data
     By = P.Wavefront(y, wl, dx).babinet_backprop(efl, lyot, m, fdx).data
     gap, lhs, rhs = adj_gap(x, y, Ax, By)
     extra = ''
@@ -204,9 +281,11 @@ def run_babinet(p):
         if not same:
             gap = max(gap, 1.0)
     L = np.ones(ps) if lyot is None else lyot
-    line = f'babbp {ps[0]} {ps[1]} {ms[0]} {ms[1]} ' + rw([dx, efl, wl, fdx]) + ' ' + cw(m) + ' ' + cw(L) + ' ' + cw(y)
+    line = _fpm_line('babbpm', spy, ps, ms, 1 - m, y, lyot=L)
+    fid = f'babbp {ps[0]} {ps[1]} {ms[0]} {ms[1]} ' + rw([dx, efl, wl, fdx]) + ' ' + cw(m) + ' ' + cw(L) + ' ' + cw(y)
     return Result(gap <= TOL_ADJ and By.shape == ps, f'<y,Ax>={lhs:.12g} <By,x>={rhs:.12g} rel gap {gap:.3e}' + extra,
                   line, By, ps, 'c', nontrivial=max(ps + ms) > 1,
+                  extra=[(fid, By, ps, 'c', 'physical-parameter model of the backprop')],
                   tag=f'{"cmask" if p["cmask"] else "rmask"}/{"same" if ps == ms else "othershape"}/lyot-{p["lyot"]}')
 
 
@@ -407,13 +486,36 @@ def run_dm(p):
     unchanged = np.array_equal(y_in, y)
     gap, lhs, rhs = adj_gap(a, y, s, gb)
     ok = gap <= TOL_ADJ and np.shape(gb) == a.shape and unchanged
-    line = None
+    line, fid = None, []
     if up == 1 and isinstance(p['Nact'], int):
         m_, n_ = ifn.shape
-        line = (f'dmbp {m_} {n_} {p["Nact"]} {p["sep"][0]} {p["sep"][1]} {s.shape[0]} {s.shape[1]} '
-                + rw([p['shift'][0], p['shift'][1], 2 * dm.obliquity if p['wfe'] else 1.0]) + ' ' + rw(ifn) + ' ' + rw(y))
+        scale = 2 * dm.obliquity if p['wfe'] else 1.0
+        fid = [(f'dmbp {m_} {n_} {p["Nact"]} {p["sep"][0]} {p["sep"][1]} {s.shape[0]} {s.shape[1]} '
+                + rw([p['shift'][0], p['shift'][1], scale]) + ' ' + rw(ifn) + ' ' + rw(y), gb, a.shape, 'r',
+                'fully modelled render_backprop (lattice, transfer function, offsets)')]
+        try:      # the forward's own ingredients: transfer function, lattice, resize offsets
+            H = np.ones(ifn.shape, dtype=complex)
+            for tf in dm.tf:
+                H = H * tf
+            iy, ix = dm.iyy, dm.ixx
+            Ni = tuple(dm.Nintermediate)
+            if y.shape[0] > Ni[0]:
+                mk = np.arange(y.size, dtype=float).reshape(y.shape)
+                oy, ox = divmod(int(dmm.crop_center(mk, out_shape=Ni)[0, 0]), y.shape[1])
+                mode = 1
+            elif y.shape[0] < Ni[0]:
+                mk = np.arange(1, y.size + 1, dtype=float).reshape(y.shape)
+                oy, ox = [int(v) for v in np.argwhere(dmm.pad2d(mk, out_shape=Ni) == 1)[0]]
+                mode = 2
+            else:
+                oy = ox = mode = 0
+            if isinstance(iy, slice) and isinstance(ix, slice) and Ni == ifn.shape:
+                line = (f'dmbpi {m_} {n_} {p["Nact"]} {iy.start} {iy.step} {ix.start} {ix.step} {y.shape[0]} {y.shape[1]} {mode} {oy} {ox} '
+                        + rw([scale]) + ' ' + cw(H) + ' ' + rw(y))
+        except Exception:
+            line = None
     return Result(ok, f'<y,render(a)>={lhs:.12g} <render_backprop(y),a>={rhs:.12g} rel gap {gap:.3e}; upstream gradient left unchanged: {unchanged}',
-                  line, gb if line else None, a.shape if line else None, 'r',
+                  line, gb if line else None, a.shape if line else None, 'r', extra=fid,
                   tag=f'{"odd" if ifn.shape[0] % 2 else "even"}{"odd" if ifn.shape[1] % 2 else "even"}/'
                       f'{"pad" if s.shape[0] > dm.Nintermediate[0] else "crop" if s.shape[0] < dm.Nintermediate[0] else "same"}/'
                       f'{"up" if up != 1 else "noup"}/{"shift" if any(p["shift"]) else "noshift"}/{"wfe" if p["wfe"] else "sfe"}')
@@ -617,7 +719,7 @@ def _safe_run(item, p):
 
 
 def correspondence(ctx):
-    mult = ctx.scale(1, 12)
+    mult = ctx.scale(1, 40)
     if ctx.widen:
         mult *= 2
     pending = []
@@ -631,17 +733,31 @@ def correspondence(ctx):
             if not res.ok:
                 ctx.pred_fail(item, p, res.detail)
             if res.model_line is not None:
-                pending.append((item, p, res))
-    replies = C.lean_driver('C06', [r.model_line for _, _, r in pending]) if pending else []
-    for (item, p, res), rep in zip(pending, replies):
+                pending.append((item, p, res.model_line, res.impl, res.shape, res.kind, 'backprop', True))
+            for (ln, impl, shape, kind, label) in res.extra:
+                pending.append((item, p, ln, impl, shape, kind, label, False))
+    replies = C.lean_driver('C06', [q[2] for q in pending]) if pending else []
+    drift = {}
+    for (item, p, ln, impl, shape, kind, label, blocking), rep in zip(pending, replies):
         if rep.strip() == 'bad-op':
-            ctx.disagree(item, p, 'value', 'model rejected the request', note=res.model_line[:60])
+            ok, det, model = False, 'model rejected the request', None
+        else:
+            model = parse_c(rep, tuple(shape)) if kind == 'c' else parse_r(rep, tuple(shape))
+            ok, det = close(np.asarray(impl), model, TOL_MODEL)
+        ctx.hist[f'{item}:model-{"adjoint" if blocking else "fidelity"}'] += 1
+        if ok:
             continue
-        model = parse_c(rep, res.shape) if res.kind == 'c' else parse_r(rep, res.shape)
-        ok, det = close(np.asarray(res.impl), model, TOL_MODEL)
-        if not ok:
-            ctx.disagree(item, p, f'implementation backprop: {np.asarray(res.impl).ravel()[:4]}',
-                         f'model: {np.asarray(model).ravel()[:4]}', note=det)
+        if blocking:
+            # the backprop is not the adjoint (as computed by the model) of what the forward did
+            ctx.disagree(item, p, f'implementation {label}: {np.asarray(impl).ravel()[:4]}',
+                         f'model {label}: {None if model is None else np.asarray(model).ravel()[:4]}', note=det)
+        else:
+            # the stand-alone model of the forward's semantics (Q formula, basis formula, DM lattice ...) no longer
+            # describes the code.  That is not a statement about gradients: recorded, not an alarm.
+            drift[(item, label)] = drift.get((item, label), 0) + 1
+    for (item, label), k in sorted(drift.items()):
+        ctx.notes.append(f'model fidelity: {item}: {label} differs from the implementation in {k} cases '
+                         f'(forward semantics changed? adjointness is decided by the dot-product tests and the relative model)')
 
 
 # theorem / translator item -> which check to search first
@@ -699,8 +815,39 @@ def replay(inp):
 
 
 MANIFEST_ENTRY = {
-    'technique': 'Lean 4 proofs (adjoint algebra over an arbitrary field with conjugation; HasDerivAt for softmax/activations) '
-                 'over translator-generated glue + dot-product / finite-difference correspondence on the real code',
-    'text': 'filled in by notes/report_C06.md',
-    'note': '',
+    'technique': 'Lean 4 proofs (adjoint algebra over any field with conjugation; Mathlib HasDerivAt for softmax / activations / '
+                 'cost functions) over translator-generated glue + dot-product and finite-difference correspondence on the real code',
+    'text': ('PROVED for all inputs (no sorry, standard axioms): (1) linear nodes, over every field with an involutive conjugation '
+             '(C with complex conjugation, R with the identity) and for ALL sizes, matrices and data: <y, Eo f Ei> = <Eo^H y Ei^H, f> in both '
+             'associations (dft2_backprop / idft2_backprop for every Q, shape, shift), mask multiplication, the composed mask-and-back '
+             'operator idft.mask.dft and its backprop with the sign / conjugation flags read off the source, Babinet '
+             'L*(x - T x) with the combination coefficient read off the source, pad/crop with the offsets translated from pad2d / '
+             'crop_center, strided scatter/gather (actuator lattice), Fourier filtering ifft2(fft2(x) H) against filtering with conj(H) '
+             '(only contract used: ifft = c fft^H, c real), the whole DM.render chain (scatter, filter, real scale, pad or crop) against '
+             'render_backprop, the modal sum with real modes, the SpatialGradient2D forward/backprop statements as translated '
+             '(NumPy slice-assignment interpreter, every axis length including 0,1,2) and their row/column liftings; the same identities '
+             'for the executable model itself (complex numbers as pairs of reals, concrete matrix-DFT bases, per-axis Q, both shifts) by '
+             'transport to Mathlib C, and agreement of the tabulated pipelines the driver runs with the pure definitions. (2) non-linear '
+             'nodes: exact polynomial expansions for the intensity node and the mean-square error; the phase node under the derivation '
+             'law u\' = i k u (instantiated with Complex.exp); HasDerivAt theorems for softmax (VJP = s*(g - <g,s>)), shift invariance, '
+             'Gumbel-softmax (1/tau), the discrete encoder, tanh / arctan / softplus / sigmoid (all a, x0, y0), the negative '
+             'log-likelihood, and the bias-and-gain-invariant error in full (normal equations, stationarity of gain and bias, envelope '
+             'argument made rigorous). TRANSLATED from the current source on every run (the theorems are re-checked against it): '
+             'the Q / shift / shape wiring of focus/unfocus_fixed_sampling(_backprop) and of to_fpm_and_back(_backprop) by symbolic '
+             'execution with callee inlining (backprop legs must equal the forward legs for all arguments), sign and mask conjugation '
+             'of the mask-and-back adjoint, Babinet combination, SpatialGradient2D slice statements and axes, the closed forms of '
+             'mean_square_error / bias_and_gain_invariant_error / negative_loglikelihood, of the four activations, of the softmax / '
+             'Gumbel / encoder backprops, of intensity_backprop and from_amp_and_phase_backprop_phase, pad/crop offsets, and structural '
+             'facts (dft2/idft2_backprop use the conjugate transposes of the forward\'s cached bases; sum_of_2d_modes_backprop contracts '
+             'both image axes; DM.render_backprop reverses render\'s steps with conj(tf) and the adjoint resampler). '
+             'MODELLED-AND-COMPARED: every case runs the property\'s own predicate on the real code (dot-product test at 1e-10, '
+             'Richardson central differences at 1e-6) and compares the real backprop with the Lean model in Float at 1e-9, the model being '
+             'given the forward\'s own ingredients (its cached basis matrices, the DM transfer function / lattice / resize offsets) so '
+             'that only adjointness is judged. PARTIAL / NOT COVERED: DM rotation (spline warp is not an exact adjoint by construction), '
+             'the adjoint of fourier_resample (upsample != 1) is checked numerically only, CZT backprops do not exist in prysm, '
+             'complex modes in sum_of_2d_modes_backprop, floating-point error, scipy.fft internals.'),
+    'note': ('Trusted: Lean kernel + propext/Classical.choice/Quot.sound; tools/gen_c06.py (symbolic executor and expression translators; '
+             'validated by running model vs code each run); NumPy matmul/tensordot/slicing and scipy.fft semantics; tolerances above. '
+             'Stand-alone models of forward semantics (Q formula, basis formula, DM lattice) are compared too but only as non-blocking '
+             'fidelity notes: forward semantics belong to C01/C03/C05/C15, and a consistent change of forward and backprop keeps C06 true.'),
 }
